@@ -83,7 +83,12 @@ Examples:
 		// Set up the ELPS environment.
 		env := lisp.NewEnv(nil)
 		env.Runtime.Reader = parser.NewReader()
-		env.Runtime.Library = &lisp.FSLibrary{FS: os.DirFS(rootDir)}
+		library, err := lisp.NewRootedFSLibrary(rootDir)
+		if err != nil {
+			fmt.Fprintf(os.Stderr, "cannot open root directory: %v\n", err)
+			os.Exit(1)
+		}
+		env.Runtime.Library = library
 		env.Runtime.Debugger = dbg
 
 		rc := lisp.InitializeUserEnv(env)
